@@ -42,7 +42,6 @@ FRAMES['C11'] = [
     dict(entry=(G, 'Merger.merge'), label='merging writes only below the output directory; the input directories are only read',
          frame=[{'what': 'a file below the output directory', 'path': r'self\.out_dir / .+'}] + _dirs(r'self\.out_dir / .+') + LOAD_OF_OUTPUT, **COMMON),
 ]
-FRAMES['C12'] = FRAMES['C11']
 FRAMES['C13'] = [
     dict(entry=(L, 'EphysAlfCreator.convert'), label='conversion writes below the output directory, adds only the subset files to the source, deletes only the temporary whitened file',
          receivers={'self.model': (M, 'TemplateModel')},
